@@ -76,6 +76,14 @@ def r_rule_dependency(ck: Checker) -> None:
     itg = ck.interp(getter)
     grets = [(r_, st_) for r_, st_ in itg.returns if r_.value is not None]
     gtxt = {itg.text(r_.value, st_) for r_, st_ in grets}
+    for gname, table in (("get_bodies", "head2bodies"), ("get_rules_that_derive", "head2rules")):
+        g2 = ck.func(f"dependency:RuleDependency.{gname}")
+        itg2 = ck.interp(g2)
+        r2 = [(r_, st_) for r_, st_ in itg2.returns if r_.value is not None]
+        t2 = {itg2.text(r_.value, st_) for r_, st_ in r2}
+        k2 = g2.params()[1]
+        ck.add(f"every defining rule is handed out: {gname} returns the whole entry", bool(t2) and all(t in (f"self.{table}[{k2}]", f"list(self.{table}[{k2}])", f"self.{table}[{k2}][:]") for t in t2), g2, r2[0][0] if r2 else g2.node,
+               f"{gname} returns {sorted(t2)}", "`len(get_bodies(p)) == 1` means 'derived by this rule only' (minmax result predicates, copy rules of unused, inline): a fact `best(guest,4).` has an empty body - filtering such entries out lets a predicate with a second derivation pass")
     ck.add("the registered uses are handed out as they are (one entry per occurrence)", bool(gtxt) and all(t in (f"self.pred2stm[{getter.params()[1]}]", f"list(self.pred2stm[{getter.params()[1]}])", f"self.pred2stm[{getter.params()[1]}][:]") for t in gtxt), getter, grets[0][0] if grets else getter.node, f"get_statements_that_use returns {sorted(gtxt)}",
            "inline.is_single reads len(get_statements_that_use(p)) == 1 as 'used exactly once in the whole program': a list without duplicates makes a predicate that occurs twice in ONE statement look single; one occurrence is unfolded, the definition deleted, the other occurrence is underivable")
     h = [c for c in attr_calls(func, "append") if unparse(c.func.value).startswith("self.head2rules[")]  # type: ignore[attr-defined]
